@@ -807,12 +807,24 @@ impl UndoOperation for InsertColumn {
 }
 
 mod scroll_util {
-    use crate::{editor::EditorError, EngineResult};
+    use crate::{editor::EditorError, EngineResult, Layer, Line, TextPane};
+
+    /// The rows of the layer (not the rows that happen to be stored): missing rows are added, rows below the
+    /// layer height are left alone. Scrolling up and down are then inverses of each other whatever `lines` held.
+    fn rows_of(layer: &mut Layer) -> usize {
+        let height = layer.get_height().max(0) as usize;
+        if layer.lines.len() < height {
+            layer.lines.resize(height, Line::default());
+        }
+        height
+    }
 
     pub(crate) fn scroll_layer_up(edit_state: &mut crate::editor::EditState, layer: usize) -> EngineResult<()> {
         if let Some(layer) = edit_state.get_buffer_mut().layers.get_mut(layer) {
-            let lines = layer.lines.remove(0);
-            layer.lines.push(lines);
+            let height = rows_of(layer);
+            if height > 0 {
+                layer.lines[..height].rotate_left(1);
+            }
             Ok(())
         } else {
             Err(EditorError::InvalidLayer(layer).into())
@@ -820,10 +832,9 @@ mod scroll_util {
     }
     pub(crate) fn scroll_layer_down(edit_state: &mut crate::editor::EditState, layer: usize) -> EngineResult<()> {
         if let Some(layer) = edit_state.get_buffer_mut().layers.get_mut(layer) {
-            if let Some(lines) = layer.lines.pop() {
-                layer.lines.insert(0, lines);
-            } else {
-                log::error!("Layer {layer} has no lines");
+            let height = rows_of(layer);
+            if height > 0 {
+                layer.lines[..height].rotate_right(1);
             }
             Ok(())
         } else {
